@@ -1510,6 +1510,23 @@ def run(pid, tier):
                 if order == "BA" and i < len(io):     # the model ran the second operation first: its codes come in that order
                     io[i] = swap_codes(io[i])
             mo = [canon(l) for l in mo]
+            # callbacks of a two-thread pair are made after the table lock is released: the ORDER of the pair's callbacks in the
+            # stream is not determined by the order in which the table changed; the first log after a pair is compared as a multiset
+            dirty = set()
+            for i, op in enumerate(x["ops"]):
+                w = op.split()
+                if not w:
+                    continue
+                if w[0] == "pair" and "|" in w and len(w) > 3:
+                    bar = w.index("|")
+                    for half in (w[3:bar], w[bar + 1:]):
+                        if half:
+                            dirty.add(("plog" if half[0].startswith("p") else "klog", w[2]))
+                elif w[0] in ("plog", "klog") and len(w) > 1 and (w[0], w[1]) in dirty:
+                    dirty.discard((w[0], w[1]))
+                    if i < len(io) and i < len(mo):
+                        io[i] = " ".join(sorted(io[i].split()))
+                        mo[i] = " ".join(sorted(mo[i].split()))
             d = vlib.first_divergence(io, mo)
             if d is not None:
                 divergences.append((x, d, x["out"][d] if d < len(x["out"]) else "<eof>", mo[d] if d < len(mo) else "<eof>"))
